@@ -15,7 +15,9 @@ MANIFEST = dict(
          "is compiled by the real compiler and judged by the model: same verdict, same error kind and name, same final frame.",
     note="the model covers one-level qualifiers and the core transforms; `select !{}`, user-written this./that., module paths and types are "
          "outside. A broken program must end in an error (never SQL, a panic is its own class); the oracle for 'broken' is the "
-         "generator's own frame bookkeeping, not the model.",
+         "generator's own frame bookkeeping, not the model. The unchanged tree accepts a relation in scalar position "
+         "(`derive {x = (from t)}` -> `t AS t`; listed finding relation-as-scalar-passes-through, with follow-up panics listed as "
+         "panic-after-relation-as-scalar); scalars in relation position end in the internal error 4317 (an error, as required).",
     technique="Lean 4 proofs over a resolution model + one-edit mutation testing of well-scoped programs through the real compiler", ref="4/C10")
 
 KEYWORDS = {"case", "null", "true", "false", "this", "that", "in", "sum", "count", "min", "max", "count_distinct", "average", "side",
